@@ -43,6 +43,7 @@ def primOf (name : String) (arg : Option Nat) : Option Prim :=
   | "vmCellSlice", none => some .vmCellSlice
   | "payloadV1toV4", none => some .payloadV1toV4
   | "w5Actions", none => some .w5Actions
+  | "addrWc", none => some .addrWc
   | _, _ => none
 
 mutual
@@ -70,7 +71,10 @@ def tyOf : Nat → Val → Option Ty
     | .cons (.sym "P") (.cons (.sym name) .nil) => (primOf name none).map .prim
     | .cons (.sym "P") (.cons (.sym name) (.cons (.int n) .nil)) => (primOf name (some n.toNat)).map .prim
     | .cons (.sym "vs") (.cons t .nil) => (tyOf fuel t).map .vmStack
-    | .cons (.sym "de") (.cons (.sym id) .nil) => some (.dictE id)
+    | .cons (.sym "de") (.cons k (.cons t .nil)) => do
+      let k ← tyOf fuel k
+      let t ← tyOf fuel t
+      pure (.dictE k t)
     | .cons (.sym "ee") (.cons (.sym id) .nil) => some (.encErr id)
     | .cons (.sym "o") (.cons (.sym id) .nil) => some (.opaque id)
     | _ => none
